@@ -21,6 +21,10 @@ pub mod cweb_e2e;
 #[path = "/verif/harness/hist_service.rs"]
 pub mod hist_service;
 
+#[cfg(not(kani))]
+#[path = "/verif/harness/hist_naming.rs"]
+pub mod hist_naming;
+
 #[path = "/verif/harness/c05.rs"]
 pub mod c05;
 
@@ -53,6 +57,10 @@ mod replay_entry {
             .unwrap_or_default();
         if module == "cweb" {
             super::cweb::replay_file();
+            return;
+        }
+        if module == "c11actor" {
+            super::hist_naming::replay_file();
             return;
         }
         if module == "c11" {
